@@ -106,7 +106,7 @@ func c01FirstDiff(want, got string) string {
 }
 
 // in the fragment of the den-level round-trip theorem (CbeRoundtrip.c01_body)? Generated rules-valid
-// streams only leave it through times, custom text, big floats that are not an infinity, the
+// streams only leave it through times, custom text, big floats that are zero or not exactly a float64, the
 // MinInt32 big-decimal exponent, and comments between the events of a chunked array.
 func c01InFragment(es []Ev) bool {
 	inArray := false
@@ -115,7 +115,8 @@ func c01InFragment(es []Ev) bool {
 		case "tm", "ct":
 			return false
 		case "bf":
-			if e.BF != nil && !e.BF.IsInf() {
+			// finite big floats: only when exactly a non-zero float64
+			if e.BF != nil && !e.BF.IsInf() && (e.BF.Sign() == 0 || inexactBigFloat(e)) {
 				return false
 			}
 		case "bdf":
